@@ -101,6 +101,34 @@ pub fn spell(toks: &[Tok]) -> String {
     s
 }
 
+/// The same tokens without a blank between an operator (keyword or symbol, unary or binary) and a parenthesis
+/// next to it: `NOT(A)+B`, `A MOD(B)*C`, `(A)AND(B)`.
+pub fn spell_tight(toks: &[Tok]) -> String {
+    let mut s = String::new();
+    for (i, t) in toks.iter().enumerate() {
+        let piece = match t {
+            Tok::Operand(n) => n.clone(),
+            Tok::Bin(op) => op.text().to_string(),
+            Tok::Neg => "-".to_string(),
+            Tok::Not => "NOT".to_string(),
+            Tok::LParen => "(".to_string(),
+            Tok::RParen => ")".to_string(),
+        };
+        if i > 0 {
+            let prev = &toks[i - 1];
+            let glue = matches!(prev, Tok::LParen | Tok::Neg)
+                || matches!(t, Tok::RParen)
+                || (matches!(t, Tok::LParen) && matches!(prev, Tok::Bin(_) | Tok::Not))
+                || (matches!(prev, Tok::RParen) && matches!(t, Tok::Bin(_)));
+            if !glue {
+                s.push(' ');
+            }
+        }
+        s.push_str(&piece);
+    }
+    s
+}
+
 #[derive(Clone, Debug, PartialEq, Eq)]
 pub enum Tree {
     Leaf(String),
@@ -236,6 +264,9 @@ pub enum Variants {
     OneUnary,
     /// one parenthesised contiguous sub-chain
     OneParen,
+    /// one parenthesised operand or sub-chain, bare or directly after a unary operator, to be spelled tightly
+    /// (no blank between an operator and a parenthesis next to it)
+    Tight,
 }
 
 /// All token lists derived from one operator sequence under a variant scheme.
@@ -296,6 +327,33 @@ pub fn variants(ops: &[Op], scheme: Variants) -> Vec<Vec<Tok>> {
             for a in 0..n {
                 for b in (a + 1)..n {
                     out.push(base(&|_| None, Some((a, b))));
+                }
+            }
+            out
+        }
+        Variants::Tight => {
+            let mut out = vec![];
+            for a in 0..n {
+                for b in a..n {
+                    for u in [None, Some(Tok::Neg), Some(Tok::Not)] {
+                        let mut t = vec![];
+                        for i in 0..n {
+                            if i == a {
+                                if let Some(u) = &u {
+                                    t.push(u.clone());
+                                }
+                                t.push(Tok::LParen);
+                            }
+                            t.push(Tok::Operand(NAMES[i].to_string()));
+                            if i == b {
+                                t.push(Tok::RParen);
+                            }
+                            if i < ops.len() {
+                                t.push(Tok::Bin(ops[i]));
+                            }
+                        }
+                        out.push(t);
+                    }
                 }
             }
             out
